@@ -258,5 +258,27 @@ def idle_instant(spec, store_latency=None, stack="inproc", clock_latency=None):
     if not idles or len(regs) < n_wait:
         return None
     t_all = sorted(regs)[n_wait - 1]
+    if spec["meta"].get("retry_delay") is not None:
+        # a flaky step is retried after a delay: the run is not idle before its last attempt has ended (an idle announcement made
+        # while its start event still sat in the mailbox is the known premature one, not the reference instant)
+        ends = [b["t1"] for b in cs.tr.bodies() if b["step"].startswith("flaky") and b["t1"] is not None]
+        if ends:
+            t_all = max(t_all, max(ends))
     later = [t for t in idles if t >= t_all - 1e-9]
+    if not later:
+        # every wait is registered, no step body is executing, 60 virtual seconds passed without input: the run IS idle, but no idle
+        # announcement was made from then on
+        open_bodies = [b["step"] for b in cs.tr.bodies() if b["t1"] is None]
+        wakeups = []
+        for rn in cs.tr.runners[-1:]:
+            try:
+                wakeups = [type(t[2]).__name__ for t in rn.scheduled_wakeups]
+            except Exception:  # noqa: BLE001
+                pass
+        LAST_REFERENCE.clear()
+        LAST_REFERENCE.update({"never_announced": not open_bodies and "TickAddEvent" not in wakeups, "quiet_since": t_all, "announcements": idles[-5:],
+                               "open_bodies": open_bodies, "wakeups": wakeups})
     return later[0] if later else None
+
+
+LAST_REFERENCE: dict = {}
